@@ -747,7 +747,7 @@ def _cycle_shapes_failures():
     work = tempfile.mkdtemp(prefix='redo-verif-cyc.', dir='/var/tmp')
     fails, n = [], 0
     try:
-        shapes = [(k, stamped, entry, j, None) for k in (2, 3) for stamped in ('none', 'first', 'all') for entry in ['top'] + ['t%d' % i for i in range(k)] for j in (1, 4)]
+        shapes = [(k, stamped, entry, j, None) for k in (2, 3) for stamped in ('none', 'first', 'last', 'all') for entry in ['top'] + ['t%d' % i for i in range(k)] for j in (1, 4)]
         # the top-level command started with a REDO_CYCLES that is set but names nobody: empty, or with an empty item (the
         # value apenwarr's redo writes always carries one)
         shapes += [(2, 'none', entry, j, cyc) for cyc in ('', ':999983', '999983:') for entry in ('top', 't0', 't1') for j in (1, 4)]
@@ -762,7 +762,7 @@ def _cycle_shapes_failures():
                         os.makedirs(proj)
 
                         def script(i, closed):
-                            st = stamped == 'all' or (stamped == 'first' and i == 0)
+                            st = stamped == 'all' or (stamped == 'first' and i == 0) or (stamped == 'last' and i == k - 1)
                             dep = names[i + 1] if i + 1 < k else ('t0' if closed else None)
                             lines = ['redo-ifchange src']
                             if st:
@@ -1042,12 +1042,14 @@ def _concurrent_state_failures():
                     open(os.path.join(proj, t + '.src'), 'w').write(t + ' one\n')
                     open(os.path.join(proj, t + '.src2'), 'w').write(t + ' two\n')
                 opt = ['--no-log'] if nolog else []
-                hist = 'fresh project; redo %s a (waits) | redo-targets; redo-ood | redo %s b (waits); release %s first' % (' '.join(opt), ' '.join(opt), first_out)
+                hist = 'fresh project; redo %s a (waits) | redo-targets; redo-ood | redo %s b (waits) | a second redo a; release %s first' % (' '.join(opt), ' '.join(opt), first_out)
                 p1 = subprocess.Popen(['redo'] + opt + ['a'], cwd=proj, env=env, stdout=subprocess.PIPE, stderr=subprocess.PIPE, text=True)
                 ok = wait_for(os.path.join(proj, 'a.started'))
                 q1 = subprocess.run(['redo-targets'], cwd=proj, env=env, capture_output=True, text=True, timeout=60)
                 q2 = subprocess.run(['redo-ood'], cwd=proj, env=env, capture_output=True, text=True, timeout=60)
                 p3 = subprocess.Popen(['redo'] + opt + ['b'], cwd=proj, env=env, stdout=subprocess.PIPE, stderr=subprocess.PIPE, text=True)
+                # ... and a second command that asks for `a` itself while its script runs: it finds the target locked, waits, and succeeds
+                p4 = subprocess.Popen(['redo'] + opt + ['a'], cwd=proj, env=env, stdout=subprocess.PIPE, stderr=subprocess.PIPE, text=True)
                 ok = wait_for(os.path.join(proj, 'b.started')) and ok
                 order = ['a', 'b'] if first_out == 'a' else ['b', 'a']
                 procs = {'a': p1, 'b': p3}
@@ -1060,8 +1062,14 @@ def _concurrent_state_failures():
                     except subprocess.TimeoutExpired:
                         procs[t].kill()
                         rcs[t], errs[t] = None, 'timeout'
-                if not ok or rcs.get('a') != 0 or rcs.get('b') != 0 or q1.returncode != 0 or q2.returncode != 0:
-                    fails.append(dict(input=hist, observed='exit a=%s b=%s targets=%d ood=%d; %s' % (rcs.get('a'), rcs.get('b'), q1.returncode, q2.returncode, ((errs.get('a') or '') + (errs.get('b') or '') + q1.stderr + q2.stderr).strip()[-240:]),
+                try:
+                    out4, err4 = p4.communicate(timeout=60)
+                    rcs['a2'], errs['a2'] = p4.returncode, err4
+                except subprocess.TimeoutExpired:
+                    p4.kill()
+                    rcs['a2'], errs['a2'] = None, 'timeout'
+                if not ok or rcs.get('a') != 0 or rcs.get('b') != 0 or rcs.get('a2') != 0 or q1.returncode != 0 or q2.returncode != 0:
+                    fails.append(dict(input=hist, observed='exit a=%s b=%s second-a=%s targets=%d ood=%d; %s' % (rcs.get('a'), rcs.get('b'), rcs.get('a2'), q1.returncode, q2.returncode, ((errs.get('a') or '') + (errs.get('b') or '') + (errs.get('a2') or '') + q1.stderr + q2.stderr).strip()[-240:]),
                                       clause='commands that overlap on one project succeed (none fails with an error of redo\'s own)'))
                     continue
                 tg = sorted(subprocess.run(['redo-targets'], cwd=proj, env=env, capture_output=True, text=True, timeout=60).stdout.split())
